@@ -285,6 +285,8 @@ struct Driver<'a, RK: RadioKind, C: Probe> {
     tx_pkt: PacketParams,
     rx_pkt: PacketParams,
     rxbuf: [u8; 255],
+    /// how much of it the caller offers (one plan in five: less than the packets the chip delivers)
+    rxlen: usize,
     col: &'a mut Collector,
     found: Vec<Found>,
     log: Vec<String>,
@@ -315,7 +317,7 @@ impl<'a, RK: RadioKind, C: Probe> Driver<'a, RK, C> {
         let mdl = &self.mdl;
         let tx_pkt = &mut self.tx_pkt;
         let rx_pkt = &self.rx_pkt;
-        let rxbuf = &mut self.rxbuf;
+        let rxbuf = &mut self.rxbuf[..self.rxlen];
         let sync_word = self.sync_word;
         let r: Result<Result<Option<Result<(), RadioError>>, u64>, Trapped> = trap(|| {
             let full = |x: Result<(Result<(), RadioError>, u64), u64>| x.map(|(r, _)| Some(r));
@@ -540,7 +542,12 @@ impl<'a, RK: RadioKind, C: Probe> Driver<'a, RK, C> {
                 }
                 _ => None,
             };
-            let documented_exception = before == RadioMode::Receive(RxMode::Continuous) && matches!(call, Call::CompleteRx | Call::Rx) && !matches!(phase_now, Some("fetch") | Some("irq-wait"));
+            // (a packet that does not fit the caller's buffer fails while it is fetched, whatever the chip reported)
+            let fetch_refused = matches!(&res, Res::Err(e) if e.starts_with("PayloadSizeMismatch"));
+            if fetch_refused {
+                self.col.event("packets_longer_than_the_callers_buffer");
+            }
+            let documented_exception = before == RadioMode::Receive(RxMode::Continuous) && matches!(call, Call::CompleteRx | Call::Rx) && !matches!(phase_now, Some("fetch") | Some("irq-wait")) && !fetch_refused;
             self.col.event("failed_operations");
             if documented_exception {
                 self.col.event("failed_operations_in_continuous_rx(exception)");
@@ -729,7 +736,7 @@ impl<'a> Visitor for RunPlan<'a> {
             sh.also_next_spi = plan.double;
         }
         let losses_base = bus.borrow().chip.losses();
-        let mut d = Driver { var, lora, bus: bus.clone(), mdl, tx_pkt, rx_pkt, rxbuf: [0; 255], col, found: vec![], log: vec![], losses_base, failed_init: false, baseline_failed: plan.baseline_failed.clone(), failed: vec![], sync_expected: Some(bus.borrow().chip.sync_value()), sync_word: if plan.ovar % 2 == 0 { 0x1424 } else { 0x1F38 }, sync_mark: 0 };
+        let mut d = Driver { var, lora, bus: bus.clone(), mdl, tx_pkt, rx_pkt, rxbuf: [0; 255], rxlen: if plan.ovar % 5 == 3 { 4 } else { 255 }, col, found: vec![], log: vec![], losses_base, failed_init: false, baseline_failed: plan.baseline_failed.clone(), failed: vec![], sync_expected: Some(bus.borrow().chip.sync_value()), sync_word: if plan.ovar % 2 == 0 { 0x1424 } else { 0x1F38 }, sync_mark: 0 };
         let plan_json = || {
             json!({
                 "chip": plan.var.name(),
